@@ -35,7 +35,8 @@ def digest(out: Path) -> dict[str, str]:
 
 
 def variants(rng: random.Random, top: Path, root: str, k: int):
-    """[(label, env hash seed, spec)]; the first is the reference run"""
+    """[(label, env hash seed, spec)]; the first is the reference run; `root` is the source directory relative to
+    top/src (the package itself, or a plain directory that contains packages at different depths)"""
     src = top / "src" / root
     base_opts = []
     style = rng.choice(["plaintext", "numpydoc", "google", "rest"])
@@ -80,11 +81,22 @@ def one_case(task):
     style = rng.choice(["plaintext", "numpydoc", "google", "rest"])
     pkg = pkggen.PkgGen(rng, style=style, **GEN).package()
     files = pkggen.render(pkg)
+    src_root = pkg["root"]
+    if rng.random() < 0.35:
+        # the source directory is not a package: the package lies two levels down, a decoy package three levels down in a
+        # sibling subtree whose name sorts (and often enumerates) first; the tool has to pick the nearest one
+        files = {f"code/lib/{p}": t for p, t in files.items()}
+        files["code/bench/perf/suite/__init__.py"] = ""
+        files["code/bench/perf/suite/cases.py"] = "def zz_case(n: int) -> int:\n    return n\n"
+        files["code/aaa/deeper/still/more/__init__.py"] = ""
+        files["code/aaa/deeper/still/more/m.py"] = "def zz_m() -> None: ...\n"
+        src_root = "code"
     top = implrun.WORK / f"sr_{os.getpid()}_{seed}"
     res = {"seed": seed, "fails": [], "runs": 0, "outcomes": [], "n_files": 0, "labels": []}
     try:
         e2e.write_pkg(files, top / "src")
-        vs, base_opts = variants(rng, top, pkg["root"], k)
+        res["labels"].append("layout: plain source directory" if src_root == "code" else "layout: package")
+        vs, base_opts = variants(rng, top, src_root, k)
         ref = None
         for label, hs, spec, outdir in vs:
             env = dict(os.environ, PYTHONHASHSEED=str(hs), MYPY_CACHE_DIR=os.devnull)
@@ -139,7 +151,8 @@ def run(ctx) -> None:
     rng = random.Random(ctx.seed * 48271 % (1 << 31) + 5)
     tasks = [(rng.randrange(1 << 40), k) for _ in range(n)]
     rep.rule = (rep.rule + " | " if rep.rule else "") + (
-        "S-R: generated packages (same-named classes in different modules and nesting levels allowed, re-exports, "
+        "S-R: generated packages (same-named classes in different modules and nesting levels allowed, re-exports; in a third of "
+        "the cases below a plain source directory next to deeper decoy packages, "
         "docstring types) run through safeds_stubgen.main.main() in fresh interpreters: reference run vs. runs with "
         "other PYTHONHASHSEED values, shuffled os.listdir/os.scandir order, relative / trailing-slash / dotted path "
         "spellings, other working directories, and a repetition; sha256 of every output file compared; "
